@@ -5,6 +5,7 @@ package main
 // DESIGN.md §4).
 
 import (
+	"errors"
 	"fmt"
 	"os"
 	"time"
@@ -116,6 +117,59 @@ func init() {
 			n := ex.tb.Add(ex.load(a[0].(*Pointer)).(*Term), a[1].(*Term))
 			ex.store(a[0].(*Pointer), n)
 			return n
+		},
+		// fmt.Sprintf / fmt.Errorf on concrete arguments (strings, integers, bools, errors made here):
+		// evaluated by the real fmt; symbolic arguments are unsupported
+		"fmt.Sprintf": func(ex *Exec, fn *ssa.Function, a []Value, fr *Frame) Value {
+			return ex.constStr(ex.concreteSprintf(a))
+		},
+		"fmt.Errorf": func(ex *Exec, fn *ssa.Function, a []Value, fr *Frame) Value {
+			return ex.newError(ex.concreteSprintf(a))
+		},
+		"fmt.Sprint": func(ex *Exec, fn *ssa.Function, a []Value, fr *Frame) Value {
+			return ex.constStr(fmt.Sprint(ex.concreteArgs(a[0])...))
+		},
+		// strings.Builder over the struct {addr, buf}: buf is the slice model
+		"(*strings.Builder).WriteString": func(ex *Exec, fn *ssa.Function, a []Value, fr *Frame) Value {
+			q := ex.builderBuf(a[0])
+			nb := ex.appendOp(ex.load(q).(*SliceV), a[1])
+			ex.store(q, nb)
+			return TupleV{a[1].(*StringV).Len, &IfaceV{}}
+		},
+		"(*strings.Builder).Write": func(ex *Exec, fn *ssa.Function, a []Value, fr *Frame) Value {
+			q := ex.builderBuf(a[0])
+			nb := ex.appendOp(ex.load(q).(*SliceV), a[1])
+			ex.store(q, nb)
+			return TupleV{a[1].(*SliceV).Len, &IfaceV{}}
+		},
+		"(*strings.Builder).WriteByte": func(ex *Exec, fn *ssa.Function, a []Value, fr *Frame) Value {
+			q := ex.builderBuf(a[0])
+			one := ex.sliceFromTerms([]*Term{a[1].(*Term)}, types.Typ[types.Uint8])
+			ex.store(q, ex.appendOp(ex.load(q).(*SliceV), one))
+			return &IfaceV{}
+		},
+		"(*strings.Builder).Len": func(ex *Exec, fn *ssa.Function, a []Value, fr *Frame) Value {
+			sv := ex.load(ex.builderBuf(a[0])).(*SliceV)
+			if sv.Arr == nil {
+				return ex.i64(0)
+			}
+			return sv.Len
+		},
+		"(*strings.Builder).Grow":  func(ex *Exec, fn *ssa.Function, a []Value, fr *Frame) Value { return nil },
+		"(*strings.Builder).Reset": func(ex *Exec, fn *ssa.Function, a []Value, fr *Frame) Value {
+			q := ex.builderBuf(a[0])
+			ex.store(q, &SliceV{Off: ex.i64(0), Len: ex.i64(0), Cap: ex.i64(0), Elem: types.Typ[types.Uint8]})
+			return nil
+		},
+		"(*strings.Builder).String": func(ex *Exec, fn *ssa.Function, a []Value, fr *Frame) Value {
+			sv := ex.load(ex.builderBuf(a[0])).(*SliceV)
+			if sv.Arr == nil {
+				return ex.constStr("")
+			}
+			// (a copy: later writes to the builder must not show through the string)
+			ts := ex.sliceTerms(sv)
+			cp := ex.sliceFromTerms(ts, types.Typ[types.Uint8])
+			return &StringV{Arr: cp.Arr, Off: cp.Off, Len: cp.Len}
 		},
 		"errors.New": func(ex *Exec, fn *ssa.Function, a []Value, fr *Frame) Value {
 			s, _ := ex.goString(a[0].(*StringV))
@@ -400,6 +454,70 @@ func (ex *Exec) errorStringType() types.Type {
 	t := types.NewPointer(named)
 	ex.ghostT["errorString"] = t
 	return t
+}
+
+// builderBuf: address of the buf field of a strings.Builder
+func (ex *Exec) builderBuf(recv Value) *Pointer {
+	p := recv.(*Pointer)
+	if p.IsNil() {
+		ex.goPanicf("nil *strings.Builder")
+	}
+	return &Pointer{Obj: p.Obj, Path: append(append([]PathEl{}, p.Path...), PathEl{Idx: 1})}
+}
+
+// concreteArgs converts a []interface{} of concrete values to Go values for the real fmt.
+func (ex *Exec) concreteArgs(v Value) []interface{} {
+	sv, _ := v.(*SliceV)
+	if sv == nil || sv.Arr == nil {
+		return nil
+	}
+	n := ex.concInt(sv.Len, "fmt argument count")
+	off := ex.concInt(sv.Off, "fmt argument offset")
+	arr := sv.Arr.Val.(ArrayV)
+	var out []interface{}
+	for i := 0; i < n; i++ {
+		iv, _ := arr[off+i].(*IfaceV)
+		if iv == nil || iv.Typ == nil {
+			out = append(out, nil)
+			continue
+		}
+		switch x := iv.Val.(type) {
+		case *StringV:
+			g, ok := ex.goString(x)
+			if !ok {
+				panic(unsupported("fmt: symbolic string argument"))
+			}
+			out = append(out, g)
+		case *Term:
+			if !x.IsConst() {
+				panic(unsupported("fmt: symbolic integer argument"))
+			}
+			if b, ok := iv.Typ.Underlying().(*types.Basic); ok && b.Info()&types.IsBoolean != 0 {
+				out = append(out, x.Val != 0)
+			} else if ok && b.Info()&types.IsUnsigned != 0 {
+				out = append(out, x.Val)
+			} else {
+				out = append(out, x.SInt())
+			}
+		case *Pointer:
+			if x.Obj != nil && strings.HasPrefix(x.Obj.Site, "error:") {
+				out = append(out, errors.New(x.Obj.Name))
+				continue
+			}
+			panic(unsupported("fmt: pointer argument"))
+		default:
+			panic(unsupported(fmt.Sprintf("fmt: argument of kind %T", iv.Val)))
+		}
+	}
+	return out
+}
+
+func (ex *Exec) concreteSprintf(a []Value) string {
+	f, ok := ex.goString(a[0].(*StringV))
+	if !ok {
+		panic(unsupported("fmt: symbolic format"))
+	}
+	return fmt.Sprintf(f, ex.concreteArgs(a[1])...)
 }
 
 func (ex *Exec) newError(msg string) Value {
